@@ -81,7 +81,7 @@ func c17Scenarios(tier string) []*core.Scenario {
 				src.WriteString(bitsLine(dirs[i]))
 				if n != "" && dirs[i] != 0 {
 					src.WriteString(stmtLine(n))
-					if (strings.HasPrefix(n, "DB ") || strings.HasPrefix(n, "DW ")) {
+					if strings.HasPrefix(n, "DB ") || strings.HasPrefix(n, "DW ") {
 						neutralBytes++
 					}
 				}
